@@ -190,6 +190,15 @@ def ev(e, env):
         if isinstance(v, list) and -len(v) <= e.slice.value < len(v):
             return v[e.slice.value]
         raise Unknown(k)
+    if isinstance(e, ast.Subscript) and isinstance(e.slice, ast.UnaryOp) and \
+            isinstance(e.slice.op, ast.USub) and \
+            isinstance(e.slice.operand, ast.Constant) and \
+            isinstance(e.slice.operand.value, int):
+        v = ev(e.value, env)
+        i_ = -e.slice.operand.value
+        if isinstance(v, list) and -len(v) <= i_ < len(v):
+            return v[i_]
+        raise Unknown(k)
     if isinstance(e, ast.Attribute) and e.attr == "shape":
         v = ev(e.value, env)
         if isinstance(v, list):
